@@ -259,9 +259,25 @@ func checkC15(c *Ctx) {
 		ru5.Check(ok1 && ok2 && prot&2 != 0 && flags == 1, "gommap.Map flags in "+c.fname(s.impl), c.whereI(s.mapCall.Instr), "PROT_WRITE set, MAP_SHARED", fmt.Sprintf("state mapping prot=%d flags=%d: a private or read-only mapping never persists the offset", prot, flags))
 		of := c.fo(ru5, "os", "OpenFile")
 		if of != nil {
-			for i, cl := range core.CallsTo(s.impl, of) {
+			var opens []*core.Call
+			seenF := map[*ssa.Function]bool{}
+			var collect func(f *ssa.Function, d int)
+			collect = func(f *ssa.Function, d int) {
+				if f == nil || seenF[f] || d < 0 {
+					return
+				}
+				seenF[f] = true
+				opens = append(opens, core.CallsTo(f, of)...)
+				for _, cl := range core.CallsIn(f) {
+					if cl.Static != nil && cl.Static.Package() == s.impl.Package() {
+						collect(cl.Static, d-1)
+					}
+				}
+			}
+			collect(s.impl, 2)
+			for i, cl := range opens {
 				fl, ok := constInt(cl.Arg(1))
-				ru5.Check(ok && fl&2 != 0, fmt.Sprintf("os.OpenFile#%d in %s", i, c.fname(s.impl)), c.whereI(cl.Instr), "O_RDWR", "the state file is not opened read-write")
+				ru5.Check(ok && fl&2 != 0, fmt.Sprintf("os.OpenFile#%d reached from %s", i, c.fname(s.impl)), c.whereI(cl.Instr), "O_RDWR", "the state file is not opened read-write")
 			}
 		}
 
